@@ -23,7 +23,7 @@ ReplVars(t, m, total, fname) ==
                 [] x = "columnNumber" -> Itoa(m.cs)
                 [] x = "value"        -> Slice(t, m.s, m.e)
                 [] x = "filename"     -> fname]
-  IN [x \in DOMAIN m.vars \cup Builtins |-> IF x \in Builtins THEN b[x] ELSE m.vars[x]]
+  IN [x \in DOMAIN m.svars \cup Builtins |-> IF x \in Builtins THEN b[x] ELSE m.svars[x]]
 
 (* the environment of a transform run for match m                           *)
 TransEnv(t, m, total, fname) ==
